@@ -164,6 +164,19 @@ def families(rng, quick):
                                                                           Ret(B("+", Mem(V("s2"), "m"), Idx(V("arr2"), I(1))))])]),
                     [{"fn": "f", "args": {"a": value(t, rng), "i": 1}}, {"fn": "f", "args": {"a": value(t, rng), "i": 3}}]))
         out.append(("default", Module([fn([("i", "int")], t, [Decl(t, "x", None), Decl(t, "y", B("+", V("x"), V("x"))), Ret(V("y"))])]), [{"fn": "f", "args": {"i": 0}}]))
+    # F7: a name of an enclosing scope declared again, with another type, in a nested scope (branch, block, loop body, for-initialiser) and the
+    #     outer variable used afterwards: the front end must reject the program (one flat name table per function at run time)
+    outer = [("int", [4], lambda: Idx(V("x"), I(0)), "int"), ("float4", None, lambda: Idx(V("x"), I(3)), "float"), ("int", None, lambda: B("+", V("x"), I(1)), "int"),
+             ("float3x3", None, lambda: Idx(Idx(V("x"), I(1)), I(1)), "float"), ("float", None, lambda: B("*", V("x"), F("2.0")), "float"), ("int3", None, lambda: Mem(V("x"), "z"), "int")]
+    inner = [("int", None, I(5)), ("float", None, F("1.5")), ("float2", None, Ctor("float2", [F("1.0"), F("2.0")])), ("int", [2], None)]
+    for (ot, odims, use, rt), (it, idims, init) in itertools.product(outer, inner):
+        if (ot, odims) == (it, idims):
+            continue
+        redecl = Decl(it, "x", init, dims=idims)
+        for nest in (lambda d: If(B(">", V("c"), I(0)), Block([d])), lambda d: Block([d]), lambda d: While(B(">", V("c"), I(5)), Block([d, Break()])),
+                     lambda d: If(B(">", V("c"), I(0)), Block([ES(A(V("c"), I(1)))]), Block([d]))):
+            m = Module([fn([("c", "int")], rt, [Decl(ot, "x", None, dims=odims), nest(redecl), Ret(use())])])
+            out.append(("nested-redeclaration", m, [{"fn": "f", "args": {"c": 1}}, {"fn": "f", "args": {"c": 0}}, {"fn": "f", "args": {"c": 7}}]))
     return out
 
 
